@@ -33,6 +33,9 @@ DIRECTED = [
     # a name that is replaced atomically while it is linked and open elsewhere: the link and the open descriptor keep the old version
     "newfs", "mkdir d1", "atomic d1 a 11", "link d1 a d1 l", "open d1 a", "atomic d1 a 2222", "readat 0 0 10", "open d1 l", "readat 1 0 10", "open d1 a", "readat 2 0 10",
     "list d1", "atomic d1 a -", "readat 2 0 10", "readat 0 0 10", "open d1 a", "readat 3 0 10", "open d1 l", "readat 4 0 10",
+    # a link names the SAME file: what is appended after the link (through the descriptor Create returned) is read through both names
+    "newfs", "mkdir e", "create e log", "append 0 6f6e652c", "link e log e log.lnk", "append 0 74776f2c", "open e log.lnk", "readat 1 0 100", "open e log", "readat 2 0 100",
+    "delete e log", "append 0 33", "readat 1 0 100", "open e log.lnk", "readat 3 0 100", "close 0", "list e",
 ]
 
 
